@@ -29,8 +29,12 @@ func vSymStmt(i int, kinds int) vStmt {
 	s := vStmt{t: symInt64("t" + is), b: symInt64("b" + is), c: symInt64("c" + is)}
 	if shape := symParam("shape", 0); shape == 1 {
 		s.kind = []int{vINS, vUPD, vUPD, vDEL}[i%4] // two updates, then a delete with an arbitrary write time
+	} else if shape == 3 {
+		s.kind = []int{vINS, vINS, vUPD, vDEL}[i%4] // two writers insert; an update and a delete with arbitrary write times
 	} else if shape == 2 {
 		s.kind = []int{vINS, vUPD, vDEL, vINS}[i%4] // update, delete, re-insert with arbitrary write times
+	} else if i == 0 && symParam("firstins", 0) == 1 {
+		s.kind = vINS // histories that start by inserting the row (the others mostly consist of no-ops)
 	} else {
 		s.kind = symChoice("kind"+is, kinds)
 	}
@@ -248,6 +252,13 @@ func VerifH_C02_history() {
 				symAssert(err == nil, "refresh-ok")
 				w[k] = nt
 			}
+			// every writer then also writes a row of its own, so each of them ends
+			// with a version of its own that still carries what it saw of key 1
+			if symParam("own", 0) == 1 {
+				for k := range w {
+					symAssert(vIns(w[k], int64(8+k), int64(10+k), int64(k), int64(k)) == nil, "own-row-insert-ok")
+				}
+			}
 		}
 	}
 	for k := range w {
@@ -285,6 +296,9 @@ func VerifH_C02_history() {
 				}
 			}
 		}
+		// (the order in which these two opens merge is not explored again: the
+		// reader above already went through every order)
+		symShuffleMode(1)
 		m1, err := vOpen(bkt.client(5), vTableOpts{bf: 2}, 910)
 		symAssert(err == nil, "merging-open-ok")
 		if damaged {
